@@ -233,6 +233,13 @@ func processPoints(points []Point, closed bool) (
 	var a, b, c Point
 	var cwc float64
 
+	// a closed series may repeat its first point at the end; that copy is not
+	// a vertex of its own, so leave it out of the cyclic neighbor selection.
+	n := len(points)
+	if closed && points[n-1] == points[0] {
+		n--
+	}
+
 	for i := 0; i < len(points); i++ {
 		// process the rectangle inflation
 		if i == 0 {
@@ -252,16 +259,12 @@ func processPoints(points []Point, closed bool) (
 
 		// gather some point positions for concave and clockwise detection
 		a = points[i]
-		if i == len(points)-1 {
-			b = points[0]
-			c = points[1]
-		} else if i == len(points)-2 {
-			b = points[i+1]
-			c = points[0]
-		} else {
-			b = points[i+1]
-			c = points[i+2]
+		if i >= n {
+			// the repeated closing point
+			continue
 		}
+		b = points[(i+1)%n]
+		c = points[(i+2)%n]
 
 		// process the clockwise detection
 		cwc += (b.X - a.X) * (b.Y + a.Y)
